@@ -35,6 +35,10 @@ Range(s) == {s[i] : i \in 1..Len(s)}
 Max2(a, b) == IF a > b THEN a ELSE b
 EOFV == 0
 RECVCLOSED == -9998          \* ErrRecvAfterClosed as an error item
+PANICV == -9997              \* the error item a forwarder goroutine sends after recovering a panic of the convert function
+\* A conv node may carry n = k > 0: its convert function panics on its k-th call (error items bypass the function and do not count).
+\* Only used for converts that sit (directly or below further converts) under a merge, i.e. inside a forwarder goroutine, whose deferred
+\* cleanup recovers, forwards PANICV, closes its stream and closes its reader; a panic in the caller's own Recv is outside the universe.
 FwdCap == 5                  \* toStream(): newStream(5)
 
 --------------------------------------------------------------------------------
@@ -100,6 +104,7 @@ InitM(T) ==
    lock    |-> [s \in Ids(T) |-> 0],                \* copy: process inside once.Do of the tail element (0 = none)
    cur     |-> [s \in Ids(T) |-> 1],                \* child: position in the list, 0 = nil (closed)
    closedNum |-> [s \in Ids(T) |-> 0],
+   cnt     |-> [s \in Ids(T) |-> 0],               \* conv: calls of the convert function so far
    crd     |-> [s \in Ids(T) |-> 0 - 1],           \* child: value of closedNum it read (only used by the seeded-defect variant of
                                                    \* Streams.tla in which the atomic.AddUint32 is a separate read and write)
    live    |-> [s \in Ids(T) |-> IF s \in TopMerges(T) THEN MStreams(T, s) ELSE {}],           \* chosenList
@@ -149,7 +154,11 @@ Rv(M, T, r, a) ==
            o \in Rv(M, T, Src1(T, p), a)}
      ELSE {}
   ELSE IF Kd(T, r) = "conv" THEN
-     {IF o.t = "val" /\ o.v > 0 THEN (IF Skips(T, r, o.v) THEN Out("prog", 0, o.M) ELSE Out("val", ConvMap(o.v), o.M)) ELSE o :
+     {IF o.t = "val" /\ o.v > 0 THEN
+         (LET c == o.M.cnt[r] + 1  M2 == [o.M EXCEPT !.cnt[r] = c] IN
+          IF T[r].n > 0 /\ c = T[r].n THEN Out("panic", 0, M2)
+          ELSE IF Skips(T, r, o.v) THEN Out("prog", 0, M2) ELSE Out("val", ConvMap(o.v), M2))
+      ELSE o :
         o \in Rv(M, T, Src1(T, r), a)}
   ELSE \* merge: select among the live streams; an ended stream leaves the list and the loop goes on
      IF M.live[r] = {} THEN {Out("val", EOFV, M)}
@@ -171,10 +180,12 @@ FwdExit(M, T, f) == CloseR([M EXCEPT !.sclosed[f] = TRUE, !.fst[f] = "done", !.s
 FwdStep(M, T, f) ==
   IF M.fst[f] = "recv" THEN
      {IF o.t = "prog" THEN o.M
+      ELSE IF o.t = "panic" THEN [Offer(o.M, f, PANICV) EXCEPT !.fst[f] = "psend"]     \* recover(): send the panic as an error item ...
       ELSE IF o.v = EOFV THEN FwdExit(o.M, T, f)
       ELSE [Offer(o.M, f, o.v) EXCEPT !.fst[f] = "send"] : o \in Rv(M, T, f, f)}
   ELSE IF M.fst[f] = "send" THEN
      {IF N.snd[f].st = "told" THEN FwdExit(N, T, f) ELSE [ClearSnd(N, f) EXCEPT !.fst[f] = "recv"] : N \in SendStep(M, T, f)}
+  ELSE IF M.fst[f] = "psend" THEN {FwdExit(N, T, f) : N \in SendStep(M, T, f)}          \* ... then closeSend and close of its reader
   ELSE {}
 
 --------------------------------------------------------------------------------
@@ -203,15 +214,20 @@ ViewOf(T, q, i, base) ==
   IF i = 0 THEN base
   ELSE LET r == q[i] IN
        IF Kd(T, r) = "conv" THEN
-          LET RECURSIVE F(_)
-              F(s) == IF s = <<>> THEN <<>>
-                      ELSE IF Head(s) > 0 THEN (IF Skips(T, r, Head(s)) THEN F(Tail(s)) ELSE <<ConvMap(Head(s))>> \o F(Tail(s)))
-                      ELSE <<Head(s)>> \o F(Tail(s))
-          IN ViewOf(T, q, i - 1, F(base))
+          LET RECURSIVE F(_, _)
+              F(s, c) == IF s = <<>> THEN <<>>
+                         ELSE IF Head(s) > 0 THEN
+                            (IF T[r].n > 0 /\ c + 1 = T[r].n THEN <<PANICV>>            \* the panic is delivered as an error item, nothing after it
+                             ELSE IF Skips(T, r, Head(s)) THEN F(Tail(s), c + 1) ELSE <<ConvMap(Head(s))>> \o F(Tail(s), c + 1))
+                         ELSE <<Head(s)>> \o F(Tail(s), c)
+          IN ViewOf(T, q, i - 1, F(base, 0))
        ELSE IF Kd(T, r) = "copy" THEN ViewOf(T, q, i - 1, DropN(base, T[r].idx))      \* what the pre-reader took is not delivered again
        ELSE ViewOf(T, q, i - 1, base)
 RootSeq(G, T, p, complete) == IF Kd(T, p) = "array" THEN T[p].items ELSE IF complete THEN G.ok[p] ELSE G.off[p]
-Views(G, T, r, complete) == [q \in PathsFrom(T, r) |-> ViewOf(T, q, Len(q) - 1, RootSeq(G, T, q[Len(q)], complete))]
+\* a path through a panicking convert: the merged reader may see the end of that source before the writer's sends have returned, and what
+\* the path lets through is cut at the panic anyway, so the offered sequence is the base also for the complete-at-EOF check
+PanicPath(T, q) == \E i \in 1..Len(q) : Kd(T, q[i]) = "conv" /\ T[q[i]].n > 0
+Views(G, T, r, complete) == [q \in PathsFrom(T, r) |-> ViewOf(T, q, Len(q) - 1, RootSeq(G, T, q[Len(q)], complete /\ ~PanicPath(T, q)))]
 \* s is an interleaving of prefixes of the sequences V[i] (of the whole sequences when complete)
 RECURSIVE Shuf(_, _, _)
 Shuf(s, V, complete) ==
@@ -222,7 +238,10 @@ IsPrefix(s, t) == Len(s) <= Len(t) /\ \A i \in 1..Len(s) : s[i] = t[i]
 SiblingsAgree(G, T, r) ==
   Kd(T, r) = "child" =>
     \A x \in Leaves(T) : (Kd(T, x) = "child" /\ Src1(T, x) = Src1(T, r)) => (IsPrefix(G.got[x], G.got[r]) \/ IsPrefix(G.got[r], G.got[x]))
-SourcesEnded(G, T, r) == \A p \in RootsOf(T, r) : Kd(T, p) = "pipe" => G.ended[p]
+\* every path from reader x down to root p passes a convert that panics
+PanicOnAllPaths(T, x, p) == \A q \in PathsFrom(T, x) : q[Len(q)] = p => \E i \in 1..Len(q) : Kd(T, q[i]) = "conv" /\ T[q[i]].n > 0
+\* a source cut off by a delivered panic need not have ended: its forwarder closes it and its writer is told afterwards
+SourcesEnded(G, T, r) == \A p \in RootsOf(T, r) : Kd(T, p) = "pipe" => (G.ended[p] \/ (PanicOnAllPaths(T, r, p) /\ PANICV \in Range(G.got[r])))
 Bad(G, why) == [G EXCEPT !.bad = why]
 
 LateBound(T, p) == IF Hops(T, p) = 0 THEN 0 ELSE T[p].cap + Hops(T, p)
@@ -238,7 +257,7 @@ ObsE(G, T, e) ==
   ELSE \* ret
      IF e.op = "send" THEN
         IF e.res = "true" THEN
-           IF \A x \in LeavesOf(T, e.a) : G.ccall[x] THEN [G EXCEPT !.told[e.a] = TRUE]
+           IF \A x \in LeavesOf(T, e.a) : G.ccall[x] \/ PanicOnAllPaths(T, x, e.a) THEN [G EXCEPT !.told[e.a] = TRUE]
            ELSE Bad(G, "writer-told-closed-while-a-reader-is-open")
         ELSE LET p == e.a  k == G.late[p] + (IF G.lateF[p] THEN 1 ELSE 0)
                  G1 == [G EXCEPT !.ok[p] = Append(@, G.off[p][Len(G.off[p])]), !.late[p] = k] IN
